@@ -1,0 +1,40 @@
+//go:build verif
+
+package snapshots
+
+import "sort"
+
+// Accessors for the verification harness (build tag verif only).
+
+// VerifPendingC15 reports the pending snapshot: its id and the members that have not acknowledged yet.
+func (s *Store) VerifPendingC15() (id uint64, waitingOperators, waitingSourceRunners []string, ok bool) {
+	s.stateMu.Lock()
+	defer s.stateMu.Unlock()
+	p := s.state.pendingSnapshot
+	if p == nil {
+		return 0, nil, nil, false
+	}
+	for k, done := range p.operatorIDsComplete {
+		if !done {
+			waitingOperators = append(waitingOperators, k)
+		}
+	}
+	for k, done := range p.sourceRunnerIDsComplete {
+		if !done {
+			waitingSourceRunners = append(waitingSourceRunners, k)
+		}
+	}
+	sort.Strings(waitingOperators)
+	sort.Strings(waitingSourceRunners)
+	return p.id, waitingOperators, waitingSourceRunners, true
+}
+
+// VerifCurrentIDC15 is the id of the newest published snapshot (0, false if none).
+func (s *Store) VerifCurrentIDC15() (uint64, bool) {
+	s.stateMu.Lock()
+	defer s.stateMu.Unlock()
+	if n := len(s.state.completedSnapshots); n > 0 {
+		return s.state.completedSnapshots[n-1].id, true
+	}
+	return 0, false
+}
